@@ -34,7 +34,7 @@ ASSUMPTIONS = [
     'argument menus are small and hand-picked around the special paths named in the property',
 ]
 EXPLANATION = 'bounded exhaustive enumeration of registry calls plus explicit-state search over field-access sets of lazy chunks'
-MANIFEST_TEXT = ('Registry of ~60 public functions/methods (text<->number conversion, split/join, interval arithmetic, sequence '
+MANIFEST_TEXT = ('Registry of ~90 public functions/methods (text<->number conversion, split/join, interval arithmetic, sequence '
                  'functions, encoding changes, genomic-data methods, table methods) x menus of argument tuples covering the '
                  'special paths (negative, "+", scientific floats, list-valued, genotype columns): arguments byte-identical '
                  'before/after every call, the second call returns an equal result, an earlier result kept alive is unchanged by later '
@@ -79,6 +79,8 @@ def snap(x, depth=0):
         return ('GA', type(x).__name__, snap(getattr(x, '_data', None), depth + 1))
     if hasattr(x, '_intervals') and hasattr(x, '_genome_context'):
         return ('GI', type(x).__name__, snap(getattr(x, '_intervals', None), depth + 1))
+    if hasattr(x, '_locations') and hasattr(x, '_genome_context'):
+        return ('GL', type(x).__name__, snap(getattr(x, '_locations', None), depth + 1))
     if hasattr(x, '_events') and hasattr(x, '_values'):
         return ('RLA', snap(np.asarray(x._events), depth + 1), snap(np.asarray(x._values), depth + 1))
     return ('other', type(x).__name__, repr(x)[:200])
@@ -233,6 +235,49 @@ def registry():
         return ops, RaggedArray(np.array([3, 10, 2, 5, 7, 1, 2, 3, 4, 5, 6], dtype=np.int64), [4, 1, 6, 0])
     add('alignments.alignment_to_interval', alignments.alignment_to_interval, lambda: (bnp.open(bam_root(), lazy=False).read(),))
     add('alignments.cigar.count_reference_length', count_reference_length, cigar_args)
+
+    # the rest of the top-level namespace: reductions, counting, slicing, similarity, Geometry / Genome / GenomicIntervals methods
+    from bionumpy.sequence.position_weight_matrix import PWM
+    from bionumpy.genomic_data.geometry import Geometry
+    from bionumpy.datatypes import VCFEntry
+    import bionumpy.arithmetics as ar
+    import bionumpy.sequence as sq
+    import bionumpy.variants as va
+    ivA, ivB, ivC = [('c', 0, 1), ('c', 1, 2)], [('c', 0, 6)], [('c', 1, 4), ('c', 2, 3), ('c', 5, 6)]
+
+    def Geo():
+        return Geometry({'chr1': 6, 'chr2': 4})
+    add('bincount', (lambda a: bnp.bincount(a)), lambda: (np.array([0, 1, 1, 3]),), lambda: (np.array([2, 2]),))
+    add('histogram', (lambda a: bnp.histogram(a, bins=[0, 1, 2, 3])), lambda: (np.array([0.5, 1.5, 2.5, 2.5]),))
+    add('mean', (lambda a: bnp.mean(a)), lambda: (np.array([1.0, 2.0, 4.0]),), lambda: (RaggedArray(np.array([1, 2, 3, 4]), [1, 3]),))
+    add('mean(axis=0)', (lambda a: bnp.mean(a, axis=0)), lambda: (np.array([[1.0, 2.0], [3.0, 5.0]]),))
+    add('quantile', (lambda a: bnp.quantile(a, [0.5])), lambda: (np.array([3, 1, 2, 5]),))
+    add('count_encoded', bnp.count_encoded, lambda: (E('ACGTA', bnp.DNAEncoding),), lambda: (E(['ACGTA', 'CC', ''], bnp.DNAEncoding),))
+    add('count_encoded(weights)', (lambda v, w: bnp.count_encoded(v, weights=w)),
+        lambda: (E('ACGTA', bnp.DNAEncoding), np.array([1, 2, 3, 4, 5])))
+    add('groupby', (lambda t: [(str(k), v) for k, v in bnp.groupby(t, 'chromosome')]), lambda: (I(grows),))
+    add('get_motif_scores', (lambda s, m: bnp.get_motif_scores(s, PWM(m, 'ACGT'))),
+        lambda: (E(['ACGT', 'AC', 'GGTCA'], bnp.DNAEncoding), np.array([[0.5, 1.0], [0.25, -1.0], [0.0, 2.0], [1.5, 0.75]])))
+    add('ragged_slice', bnp.ragged_slice, lambda: (E(['ACGT', 'ACG']), np.array([1, 0]), np.array([3, 2])))
+    add('jaccard', ar.jaccard, lambda: ({'c': 6}, I(ivA), I(ivB)))
+    add('forbes', ar.forbes, lambda: ({'c': 6}, I(ivA), I(ivB)))
+    add('global_intersect', ar.global_intersect, lambda: (I(ivA), I(ivB)), lambda: (I(ivC), I(ivA)))
+    add('get_sequences', sq.get_sequences, lambda: (E('ACGTACGT', bnp.DNAEncoding), Interval(['c', 'c'], [0, 2], [3, 8])))
+    add('GenomicIntervals.get_mask', (lambda gi: gi.get_mask()), lambda: (G().get_intervals(I(grows)),))
+    add('GenomicIntervals.get_pileup', (lambda gi: gi.get_pileup()), lambda: (G().get_intervals(I(grows)),))
+    add('GenomicIntervals.clip', (lambda gi: gi.clip()), lambda: (G().get_intervals(I([('chr1', 1, 9), ('chr2', 0, 2)])),))
+    add('GenomicIntervals.get_location', (lambda gi: gi.get_location('start')), lambda: (G().get_intervals(I(grows)),))
+    add('GenomicIntervals.from_track', (lambda a: bnp.GenomicIntervals.from_track(a)), lambda: (G().get_intervals(I(grows)).get_mask(),))
+    add('Geometry.get_pileup', (lambda g, t: g.get_pileup(t)), lambda: (Geo(), I(grows)))
+    add('Geometry.get_mask', (lambda g, t: g.get_mask(t)), lambda: (Geo(), I(grows)))
+    add('Geometry.merge_intervals', (lambda g, t: g.merge_intervals(t, 1)), lambda: (Geo(), I(grows)))
+    add('Geometry.sort', (lambda g, t: g.sort(t)), lambda: (Geo(), I(grows[::-1])))
+    add('Geometry.clip', (lambda g, t: g.clip(t)), lambda: (Geo(), I([('chr1', -1, 9), ('chr2', 0, 2)])))
+    add('Geometry.jaccard', (lambda g, a, b: g.jaccard(a, b)), lambda: (Geo(), I(grows), I(grows[:1])))
+    add('Genome.get_intervals', (lambda g, t: g.get_intervals(t)), lambda: (G(), I(grows)))
+    add('Genome.get_locations', (lambda g, t: g.get_locations(t)), lambda: (G(), bnp.datatypes.LocationEntry(['chr1', 'chr2'], [1, 3])))
+    add('variants.apply_variants_to_sequence', va.apply_variants_to_sequence,
+        lambda: (E('ACGTACGT', bnp.DNAEncoding), VCFEntry(['c', 'c'], [1, 4], ['.', '.'], ['C', 'A'], ['T', 'G'], ['.', '.'], ['.', '.'], ['.', '.'])))
     return reg
 
 
